@@ -267,8 +267,9 @@ class InProtocolBase(ProtocolMixin):
     def any_xml_from_bytes(self, cls, string):
         try:
             return etree.fromstring(string)
-        except etree.XMLSyntaxError as e:
-            raise ValidationError(string, "%%r: %r" % e)
+        except (etree.XMLSyntaxError, ValueError) as e:
+            raise ValidationError(string,
+                                         "%%r: %s" % repr(e).replace("%", "%%"))
 
     def any_html_from_bytes(self, cls, string):
         try:
